@@ -194,6 +194,13 @@ func (r *lifeRun) step(op LOp) error {
 		if !r.serving || r.timeout == 0 {
 			return nil
 		}
+		if !r.waitBlocked() {
+			return fmt.Errorf("the loop is not waiting in Accept")
+		}
+		// the loop sits in Accept call number k; it will return the connection, call Accept again (k+1: the
+		// expiry), decide, and - if it keeps serving - call Accept a third time (k+2). Only then has the expiry
+		// been fully processed (waiting for "queue empty and blocked" would be satisfied one step too early).
+		acceptK := atomic.LoadInt32(&r.fake.AcceptN)
 		c := r.fake.Connect()
 		r.fake.InjectTimeout()
 		lc := &lifeConn{c: c, id: r.nextID}
@@ -202,7 +209,7 @@ func (r *lifeRun) step(op LOp) error {
 		r.facts["connect-expiry"]++
 		r.facts["expiry-busy"]++
 		dl := time.Now().Add(r.bound)
-		for !(r.svc.VerifActiveConnections() == int64(len(r.open)) && r.fake.Blocked() && r.fake.Pending() == 0) {
+		for !(r.svc.VerifActiveConnections() == int64(len(r.open)) && atomic.LoadInt32(&r.fake.AcceptN) >= acceptK+2 && r.fake.Blocked() && r.fake.Pending() == 0) {
 			if e, ok := r.returned(); ok {
 				return fmt.Errorf("an accept-timeout expiry right after a connection was accepted stopped the service (returned %v) although that connection is open", e)
 			}
